@@ -206,9 +206,14 @@ class _BaseLayout(MaildirLayout[_MaildirT], metaclass=ABCMeta):
         for i in range(1, len(parts)):
             if not os.path.isdir(self._get_path(parts[0:i])):
                 self._add_folder(parts[0:i])
-        self._maildir(path, create=True)
+        # not left to Maildir(create=True), which does nothing when the
+        # directory is there: it may be what a killed CREATE left behind
+        os.makedirs(path, 0o700, exist_ok=True)
+        for subdir in ('tmp', 'new', 'cur'):
+            os.makedirs(os.path.join(path, subdir), 0o700, exist_ok=True)
+        self._maildir(path, create=False)
         maildirfolder = os.path.join(path, 'maildirfolder')
-        with open(maildirfolder, 'x'):
+        with open(maildirfolder, 'a'):
             pass
 
     def remove_folder(self, name: str, delimiter: str) -> None:
